@@ -62,6 +62,7 @@ def run(repo, rep, tier):
     rep.borrow(repo, "C03", {"R3.3": ("R5.5", "a node never writes into the weight/data arrays its siblings and parent also use", 400)})
     rep.borrow(repo, "C07", {"R7.3": ("R5.7", "a += b shares no child with b afterwards (a later fill of b would add weight to a's bins but not to a's entries)", 19)})
     rep.borrow(repo, "C03", {"R3.12": ("R5.10", "a finite datum whose sparse index exceeds the int64 range lands in the saturated bin in fill.numpy as well (every row of positive weight is in exactly one bin)", 2)})
+    rep.borrow(repo, "C03", {"R3.7": ("R5.11", "a Count handed a scalar weight and a known batch length grows by weight x rows, which is what its parent collection adds to its own entries", 8)})
     rep.borrow(repo, "C03", {"R3.10": ("R5.9", "a Count child of Label/UntypedLabel/Index/Branch receives the batch with a known length, so it ends with the parent's entries", 4)})
     rep.borrow(repo, "C02", {"R2.5": ("R5.8", "Bag keys are normalised so that equal data (NaN included) share one key: the weights still sum to entries after a JSON round trip", 2)})
     rep.borrow(repo, "C07", {"R7.2": ("R5.6", "child += other_child updates the child (every __iadd__ returns self), so children keep the parent's entries", 19)})
